@@ -40,11 +40,12 @@ pub fn prop() -> Prop {
 }
 
 fn describe(ctx: &Ctx) {
-    ctx.rule("generated workbooks (1..6 sheets with legal names incl. XML specials / non-ASCII, states unset/visible/hidden/veryHidden with >=1 visible, active tab on a visible sheet, optionally sheets removed again before saving; per sheet 0..24 each of merged ranges, defined names (workbook/sheet scope; cell, range, multi-area, constant/formula; sheet names needing quotes), hyperlinks (external/internal, tooltip), comments (unsorted, authors with duplicates/empty/non-ASCII, 1..3 runs, with and without note shape), data validations, conditional formats (every rule kind the API offers, dxf), auto-filter, tab colour, panes + selections, page setup/margins/print options/printer settings, header/footer, sheet and workbook protection flags) built through the public API, saved to memory (standard or light writer) and reloaded eagerly; the projection (public getters) before saving and after reloading is compared as sets keyed by anchor cell / range / scope+name, and the hyperlinks, merged ranges, defined names, sheet list and active tab are also decoded from the written bytes without the library. Sub-checks: roundtrip (everything, clean), hyperlinks (2..24 links per sheet plus what shares their relationship numbering; 4 saves per case), dirty (adds the input features of the open findings). Non-trivial = some sheet has >=2 annotations of one kind, or a sheet name / defined name / hyperlink target / author contains an XML special or non-ASCII character; distinct by full case");
+    ctx.rule("generated workbooks (1..6 sheets with legal names incl. XML specials / non-ASCII, states unset/visible/hidden/veryHidden with >=1 visible, active tab on a visible sheet, optionally sheets removed again before saving; per sheet 0..24 each of merged ranges, defined names (workbook/sheet scope; cell, range, multi-area, constant/formula; sheet names needing quotes), hyperlinks (external/internal, tooltip), comments (unsorted, authors with duplicates/empty/non-ASCII, 1..3 runs, with and without note shape), data validations, conditional formats (every rule kind the API offers, dxf), auto-filter, tab colour, panes + selections, page setup/margins/print options/printer settings, header/footer, sheet and workbook protection flags) built through the public API, saved to memory (standard or light writer) and reloaded eagerly; the projection (public getters) before saving and after reloading is compared as sets keyed by anchor cell / range / scope+name, and the hyperlinks, merged ranges, defined names, sheet list and active tab are also decoded from the written bytes without the library. Stage two (half of the cases): the bytes just written are reopened lazily (read_reader(.., false)), a generated subset of sheets is materialised in a generated order through read_sheet / get_sheet_mut / get_sheet_by_name_mut / read_sheet_by_name / read_sheet_collection, optionally a cell is edited and a sheet is added, removed or renamed while others are still unloaded, the workbook is saved again, reloaded eagerly and compared in the same way (keys prefixed lazy:). Sub-checks: roundtrip (everything, clean), hyperlinks (2..24 links per sheet, a third of them internal, plus what shares their relationship numbering: printer settings, comments, a table; 4 saves per case), dirty (adds the input features of the open findings). Non-trivial = some sheet has >=2 annotations of one kind, or a sheet name / defined name / hyperlink target / author contains an XML special or non-ASCII character; distinct by full case");
     ctx.assume("passwords of protections are not generated (property C15)");
     ctx.assume("defined-name texts with a top-level double quote, or with a top-level comma between pieces that are not cell references (print titles), are not generated: DefinedName::set_address changes them when they are handed to the API, before any save");
     ctx.assume("formula-like texts (validation formulas, conditional-format formulas, defined-name formulas) carry no leading/trailing blanks; header/footer texts with such blanks only in the dirty stratum");
     ctx.assume("for workbook-scope defined names the list that stores them (workbook or sheet) is not compared; for sheet-scope names the owning sheet is compared and localSheetId must name the owner after reload");
+    ctx.assume("stage two removes or renames only sheets that no defined name refers to, and removes a sheet only when the active tab still points at a visible sheet afterwards (what such an edit does to names and to the active tab is the edit's business, not save/reload's)");
     ctx.assume("the expected value of every item is what the public getters show before saving; the spec is checked against that view first (mismatch = discard, none observed)");
 }
 
@@ -1299,23 +1300,23 @@ fn subs() -> Vec<Box<dyn DynSub>> {
         Box::new(Sub {
             name: "roundtrip",
             strategy: strategy_clean,
-            cases: (250, 6000),
+            cases: (220, 6000),
             check: check_clean,
-            max_shrink_iters: 1200,
+            max_shrink_iters: 800,
         }),
         Box::new(Sub {
             name: "hyperlinks",
             strategy: strategy_links,
             cases: (150, 3000),
             check: check_links,
-            max_shrink_iters: 1200,
+            max_shrink_iters: 500,
         }),
         Box::new(Sub {
             name: "dirty",
             strategy: strategy_dirty,
             cases: (30, 600),
             check,
-            max_shrink_iters: 1200,
+            max_shrink_iters: 800,
         }),
     ]
 }
